@@ -20,19 +20,25 @@ func zzLoad(diamond bool) (string, string, bool) {
 	g := NewTaskfileGraph()
 	root := mk("root")
 	root.Vars = NewVars()
+	// the files of sibling directories typically share their base name
+	uri := map[string]string{"root": "/p/Taskfile.yml", "a": "/p/api/Taskfile.yml", "b": "/p/web/Taskfile.yml", "c": "/p/lib/Taskfile.yml"}
 	files := map[string]*Taskfile{"root": root, "a": mk("a"), "b": mk("b"), "c": mk("c")}
 	for _, n := range []string{"root", "a", "b"} {
-		_ = g.AddVertex(&TaskfileVertex{URI: n, Taskfile: files[n]})
+		_ = g.AddVertex(&TaskfileVertex{URI: uri[n], Taskfile: files[n]})
 	}
-	edge := func(from, to, ns string) {
-		_ = g.AddEdge(from, to, graph.EdgeData([]*Include{{Namespace: ns, Taskfile: to}}))
+	edge := func(from, to, ns string, advancedDir string) {
+		inc := &Include{Namespace: ns, Taskfile: uri[to]}
+		if advancedDir != "" {
+			inc.AdvancedImport, inc.Dir = true, advancedDir
+		}
+		_ = g.AddEdge(uri[from], uri[to], graph.EdgeData([]*Include{inc}))
 	}
-	edge("root", "a", "a")
-	edge("root", "b", "b")
+	edge("root", "a", "a", "")
+	edge("root", "b", "b", "")
 	if diamond {
-		_ = g.AddVertex(&TaskfileVertex{URI: "c", Taskfile: files["c"]})
-		edge("a", "c", "c")
-		edge("b", "c", "c")
+		_ = g.AddVertex(&TaskfileVertex{URI: uri["c"], Taskfile: files["c"]})
+		edge("a", "c", "c", "")
+		edge("b", "c", "c", "sub") // one parent includes it with dir:, the other plainly
 	}
 	tf, err := g.Merge()
 	if err != nil || tf == nil {
@@ -40,6 +46,7 @@ func zzLoad(diamond bool) (string, string, bool) {
 	}
 	x, _ := tf.Vars.Get("X")
 	xs, _ := x.Value.(string)
+	xs += "@" + x.Dir
 	order := ""
 	for name := range tf.Tasks.Keys(nil) {
 		order += name + ","
